@@ -1,3 +1,207 @@
+import PB.Model.DbApi
 import PB.Drv.Loop
-/- Driver stub for C13 (model not built yet): every op is rejected. -/
-def main : IO Unit := PB.Drv.lineLoop (fun _ => "bad-op")
+/-
+Driver for C13. Line protocol (a `#` line starts a new case = new connection, empty databases):
+
+  cfg <name>=<p|s>,...                      register the databases (p = key/record store, s = sinkhole)
+  seed <keyhex> <fmt> <datahex> <flags>     privileged write; flags: `-` or letters s c x n
+  seedstruct <keyhex> <jsonhex>             privileged write of a native struct record (JSON view)
+  m <msghex> [q=…] [o=0|1] [i=0|1]          one message through `handle`; prints the canonical reply batch
+  end                                       connection teardown
+  conc <json>                               concurrent scenario marker (the recorded trace follows)
+  t req <msghex> | t rep <replyhex> | t quiet | t final     trace acceptor
+
+Annotations are the results of the external libraries on this message (query parser, gjson/sjson):
+  q=-                         query.ParseQuery fails
+  q=<dbhex>:<prefixhex>:<w>   parsed; w = `*` no where clause, `.` where clause matching no payload,
+                              else comma-separated hex payloads (format byte + data) that satisfy it
+  o=0                         the payload body is not a JSON object
+  i=0                         gjson/sjson reject the insert
+-/
+namespace PB.Drv.C13
+open PB PB.DbApi PB.DbApiProto
+
+structure DSt where
+  st : St := {}
+  acc : AccSt := accInit
+  deriving Inhabited
+
+def rtypeStr : RType → String
+  | .ok => "ok" | .error => "error" | .done => "done" | .success => "success"
+  | .upd => "upd" | .new => "new" | .del => "del" | .warning => "warning"
+
+/-- JSON whitespace is dropped from the fingerprint (sjson's set/delete round trip does not preserve it). -/
+def dropWS (b : Bytes) : Bytes := b.filter (fun c => c != 32 && c != 9 && c != 10 && c != 13)
+
+def dataStr : Option Content → String
+  | none => "none"
+  | some c => "Jk:" ++ (if c.untracked then "?" else toHex (dropWS c.json))
+
+def errStr : Option Err → String
+  | some e => e.str
+  | none => "none"
+
+def replyStr (r : Reply) : String :=
+  let op := toHex r.op
+  match r.ty with
+  | .ok => s!"{op}|ok|{toHex r.key}|{dataStr r.data}"
+  | .upd => s!"{op}|chg|{toHex r.key}|{dataStr r.data}"
+  | .new => s!"{op}|chg|{toHex r.key}|{dataStr r.data}"
+  | .del => s!"{op}|del|{toHex r.key}"
+  | .error => s!"{op}|error|{errStr r.err}"
+  | .warning => s!"{op}|warning|{errStr r.err}"
+  | .done => s!"{op}|done"
+  | .success => s!"{op}|success"
+
+def bytesLe (a b : Bytes) : Bool := !bytesLt b a
+
+def typeRank : RType → Nat
+  | .ok => 0 | .warning => 1 | .done => 2 | .error => 3 | .success => 4 | .upd => 5 | .new => 5 | .del => 6
+
+/-- sort key of a reply inside a batch: operation ID, reply type, key (records and notifications), text -/
+def sortKeyOf (r : Reply) : Bytes × Nat × Bytes × String :=
+  (r.op, typeRank r.ty, (if r.ty == .ok || typeRank r.ty ≥ 5 then r.key else []), replyStr r)
+
+def keyLe (a b : Bytes × Nat × Bytes × String) : Bool :=
+  if a.1 ≠ b.1 then bytesLt a.1 b.1
+  else if a.2.1 ≠ b.2.1 then a.2.1 < b.2.1
+  else if a.2.2.1 ≠ b.2.2.1 then bytesLt a.2.2.1 b.2.2.1
+  else decide (a.2.2.2 ≤ b.2.2.2)
+
+/-- A batch is compared as a multiset (which goroutine reaches the send function first is scheduling):
+    sorted by operation ID, type, key, text. -/
+def batchStr (rs : List Reply) : String :=
+  if rs.isEmpty then "-"
+  else
+    let sorted := (rs.map (fun r => (sortKeyOf r, r))).mergeSort (fun a b => keyLe a.1 b.1)
+    " ".intercalate (sorted.map (fun p => p.1.2.2.2))
+
+def parseCfg (s : String) : Option (List Db) :=
+  (s.splitOn ",").mapM (fun e =>
+    match e.splitOn "=" with
+    | [n, "p"] => some { name := n.toUTF8.toList, kind := .plain }
+    | [n, "s"] => some { name := n.toUTF8.toList, kind := .sink }
+    | _ => none)
+
+def parseFlags (r : Rec) : List Char → Option Rec
+  | [] => some r
+  | '-' :: cs => parseFlags r cs
+  | 's' :: cs => parseFlags { r with secret := true } cs
+  | 'c' :: cs => parseFlags { r with crown := true } cs
+  | 'x' :: cs => parseFlags { r with expired := true } cs
+  | 'n' :: cs => parseFlags { r with obj := false } cs
+  | _ => none
+
+def parseWh (s : String) : Option (Option (List Bytes)) :=
+  if s = "*" then some none
+  else if s = "." then some (some [])
+  else ((s.splitOn ",").mapM parseHex).map some
+
+def parseQ (s : String) : Option (Option Q) :=
+  if s = "-" then some none
+  else match s.splitOn ":" with
+    | [d, p, w] => do
+      let d ← parseHex d
+      let p ← parseHex p
+      let w ← parseWh w
+      pure (some { db := d, pfx := p, wh := w })
+    | _ => none
+
+def parseAnnot (an : Annot) : List String → Option Annot
+  | [] => some an
+  | w :: ws =>
+    if w.startsWith "q=" then
+      match parseQ (w.drop 2).toString with
+      | some q => parseAnnot { an with q := q } ws
+      | none => none
+    else if w = "o=0" then parseAnnot { an with obj := false } ws
+    else if w = "o=1" then parseAnnot { an with obj := true } ws
+    else if w = "i=0" then parseAnnot { an with ins := false } ws
+    else if w = "i=1" then parseAnnot { an with ins := true } ws
+    else none
+
+def rtypeOfBytes (b : Bytes) : Option RType :=
+  [RType.ok, .error, .done, .success, .upd, .new, .del, .warning].find? (fun t => rtypeBytes t == b)
+
+/-- operation ID and type of a reply on the wire -/
+def parseReplyWire (b : Bytes) : Option (Bytes × RType) :=
+  match cut bar b with
+  | none => none
+  | some (op, rest) =>
+    let tyB := match cut bar rest with
+      | some (t, _) => t
+      | none => rest
+    (rtypeOfBytes tyB).map (fun t => (op, t))
+
+def accStr (cs : AccSt) : String := if cs.isEmpty then "reject" else "ok"
+
+def stepLine (s : DSt) (line : String) : DSt × String :=
+  match PB.Drv.words line with
+  | ["cfg", c] =>
+    match parseCfg c with
+    | some dbs => ({ s with st := { s.st with dbs := dbs } }, "ok")
+    | none => (s, "bad-op")
+  | ["seed", k, f, d, fl] =>
+    match parseHex k, f.toNat?, parseHex d with
+    | some k, some f, some d =>
+      if f ≥ 256 then (s, "bad-op") else
+      match parseFlags { fmt := UInt8.ofNat f, data := d } fl.toList with
+      | none => (s, "bad-op")
+      | some r =>
+        match findDb (parseKey k).1 s.st.dbs with
+        | none => (s, "err:nodb -")
+        | some _ =>
+          let (st', out) := seed s.st k r
+          ({ s with st := st' }, "ok " ++ batchStr out)
+    | _, _, _ => (s, "bad-op")
+  | ["seedstruct", k, j] =>
+    match parseHex k, parseHex j with
+    | some k, some j =>
+      match findDb (parseKey k).1 s.st.dbs with
+      | none => (s, "err:nodb -")
+      | some _ =>
+        let (st', out) := seed s.st k { fmt := fmtJSON, data := j }
+        ({ s with st := st' }, "ok " ++ batchStr out)
+    | _, _ => (s, "bad-op")
+  | "m" :: h :: ann =>
+    match parseHex h, parseAnnot {} ann with
+    | some msg, some an =>
+      let (st', out) := handle s.st msg an
+      ({ s with st := st' }, batchStr out)
+    | _, _ => (s, "bad-op")
+  | ["end"] =>
+    let (st', out) := teardown s.st
+    ({ s with st := st' }, batchStr out)
+  | "conc" :: _ => ({ s with acc := accInit }, "ok")
+  | ["t", "req", h] =>
+    match parseHex h with
+    | some msg =>
+      let m := classify msg
+      let acc := accStep s.acc (.req m.op m.kind)
+      ({ s with acc := acc }, accStr acc)
+    | none => (s, "bad-op")
+  | ["t", "rep", h] =>
+    match parseHex h with
+    | some b =>
+      match parseReplyWire b with
+      | some (op, t) =>
+        let acc := accStep s.acc (.rep op t)
+        ({ s with acc := acc }, accStr acc)
+      | none => ({ s with acc := [] }, "reject")
+    | none => (s, "bad-op")
+  | ["t", "quiet"] =>
+    let acc := s.acc.filter quietOk
+    ({ s with acc := acc }, accStr acc)
+  | ["t", "seed", _, _] => (s, accStr s.acc)
+  | ["t", "note", _] => (s, accStr s.acc)
+  | ["t", "down"] =>
+    let acc := s.acc.filter downOk
+    ({ s with acc := acc }, accStr acc)
+  | ["t", "final"] =>
+    let acc := s.acc.filter finalOk
+    ({ s with acc := acc }, accStr acc)
+  | _ => (s, "bad-op")
+
+end PB.Drv.C13
+
+def main : IO Unit := PB.Drv.runState ({} : PB.Drv.C13.DSt) PB.Drv.C13.stepLine
